@@ -259,6 +259,12 @@ def _is_ok(v):
 QUERY_SCENARIOS = ("join", "join_names", "select_names")
 KEY_SCENARIOS = ("keys",)
 REL_SCENARIOS = ("relational",)
+CREATE_SCENARIOS = ("create_rejected",)
+
+
+def _confirm_create(model, native):
+    """Native replay for create_table's catalog gate (C04)."""
+    return _confirm(model, native, only=CREATE_SCENARIOS)
 
 
 def _confirm_relational(model, native):
@@ -281,7 +287,7 @@ def _confirm(model, native, only=None):
     out = native("native::protocol::replay_protocol", {})
     if not out.get("_ran"):
         return None, "native protocol scenarios did not run"
-    out = {k: v for k, v in out.items() if k.startswith("_") or ((k in only) if only else (k not in QUERY_SCENARIOS + KEY_SCENARIOS + REL_SCENARIOS))}
+    out = {k: v for k, v in out.items() if k.startswith("_") or ((k in only) if only else (k not in QUERY_SCENARIOS + KEY_SCENARIOS + REL_SCENARIOS + CREATE_SCENARIOS))}
     failed = {k: v for k, v in out.items() if isinstance(v, str) and v.startswith("FAILED")}
     if out.get("_panicked") and not only:
         return True, "a native protocol scenario panicked: %s" % out.get("_panic_msg")
